@@ -137,13 +137,20 @@ theorem pratt_respects (t : OpTable) (toks : List OpTok) (e : ETree) (h : pratt 
 /-! ## non-vacuity -/
 
 def tinyOps : OpTable :=
-  { bin := [⟨"+", 2, false, "b0"⟩, ⟨"*", 4, false, "b1"⟩, ⟨"^", 6, true, "b2"⟩], un := [⟨"!", 3, "u0"⟩] }
+  { bin := [⟨"+", 2, false, "b0"⟩, ⟨"*", 4, false, "b1"⟩, ⟨"^", 6, true, "b2"⟩],
+    un := [⟨"!", 3, "u0", true⟩, ⟨"~", -1, "u1", true⟩], post := [⟨"?", 0, "p0", false⟩] }
 -- 1 + 1 * 1  ⇒  1 + (1 * 1);   1 ^ 1 ^ 1 ⇒ 1 ^ (1 ^ 1);   ! 1 * 1 + 1 ⇒ (!(1 * 1)) + 1
 example : pratt tinyOps [.atom, .bin 0, .atom, .bin 1, .atom] = some (.bin 0 .atom (.bin 1 .atom .atom)) := by decide
 example : pratt tinyOps [.atom, .bin 2, .atom, .bin 2, .atom] = some (.bin 2 .atom (.bin 2 .atom .atom)) := by decide
 example : pratt tinyOps [.un 0, .atom, .bin 1, .atom, .bin 0, .atom] =
     some (.bin 0 (.un 0 (.bin 1 .atom .atom)) .atom) := by decide
+-- an un-annotated postfix operator has the default precedence 0: it binds tighter than a prefix
+-- operator of negative precedence and weaker than one of positive precedence
+-- ~ 1 ?  ⇒  ~ (1 ?);   ! 1 ?  ⇒  (! 1) ?
+example : pratt tinyOps [.un 1, .atom, .post 0] = some (.un 1 (.post 0 .atom)) := by decide
+example : pratt tinyOps [.un 0, .atom, .post 0] = some (.post 0 (.un 0 .atom)) := by decide
 example : Respects tinyOps (.bin 1 .atom (.bin 0 .atom .atom)) = false := by decide
+example : Respects tinyOps (.un 0 (.post 0 .atom)) = false := by decide
 
 /-- a tiny table: `S → a`, start state 1, `a` = symbol 1, `S` = symbol 2 -/
 def tinyTable : Table :=
